@@ -180,6 +180,38 @@ Fixpoint revive (new : kvmap) (hl : list hentry) : option writelog :=
       end
   end.
 
+(* ---------- which logs a node database serves (forks) ---------- *)
+(* Several candidate roots may be committed in one version from the same
+   parent; one of them is finalized later.
+   - badger (badger.go:335-470): the log of every stored root is served;
+     Finalize removes non-finalized roots together with their logs
+     (badger.go:655-680).
+   - pathbadger (writelog.go:109-113, pathbadger.go:731): only the batch that
+     reserved sequence number 0 of its (version, type) writes to the final
+     node slots; for any other pending root "seqNo != 0 => ErrWriteLogNotFound"
+     until it is finalized ("all finalized roots use a seqNo of zero").
+   - both: a nil log is never stored (commit.go:99-114; badger.go:1110,
+     pathbadger/writelog.go:53-55), so nothing is served for it.
+   [seq] is the number of batches opened before this one for the same
+   (version, type) in that database. *)
+Inductive backend := Badger | PathBadger.
+Inductive fstate := Pending | FinalizedThis | FinalizedOther.
+
+Definition serve (b : backend) (seq : N) (f : fstate) (wl : writelog) : option writelog :=
+  match wl with
+  | [] => None
+  | _ =>
+      match f with
+      | FinalizedOther => None
+      | FinalizedThis => Some wl
+      | Pending =>
+          match b with
+          | Badger => Some wl
+          | PathBadger => if seq =? 0 then Some wl else None
+          end
+      end
+  end.
+
 (* ---------- comparison helpers for the correspondence ---------- *)
 Fixpoint entry_insert (e : entry) (l : writelog) : writelog :=
   match l with
@@ -291,11 +323,13 @@ Record wcase := mkCase {
   c_old : kvmap;
   c_ops : list op;
   c_db2 : db kvmap;
-  c_attempts : list attempt
+  c_attempts : list attempt;
+  c_queries : list (backend * N * fstate)   (* GetWriteLog calls made for this pair *)
 }.
 
 Record wobs := mkObs {
-  o_log : writelog;          (* served log, sorted by key *)
+  o_log : writelog;          (* the log Commit returned, sorted by key *)
+  o_served : list (option writelog);  (* per query: the served log sorted by key, or refusal *)
   o_new : kvmap;             (* contents at the end root *)
   o_hashed_ok : bool;        (* revival of the hashed log gives the log back *)
   o_attempts : list (acode * bool)
@@ -304,7 +338,12 @@ Record wobs := mkObs {
 Definition run_case (c : wcase) : wobs :=
   let s := run_batch (c_old c) (c_ops c) in
   let wl := commit_writelog s in
-  mkObs (sort_log wl) (contents s)
+  mkObs (sort_log wl)
+        (map (fun q => match serve (fst (fst q)) (snd (fst q)) (snd q) wl with
+                       | Some l => Some (sort_log l)
+                       | None => None
+                       end) (c_queries c))
+        (contents s)
         (match revive (contents s) (make_hashed wl) with
          | Some wl' => list_eqb entry_eqb wl wl'
          | None => false
@@ -313,6 +352,13 @@ Definition run_case (c : wcase) : wobs :=
 
 Definition att_eqb (a b : acode * bool) : bool :=
   acode_eqb (fst a) (fst b) && Bool.eqb (snd a) (snd b).
+Definition olog_eqb (a b : option writelog) : bool :=
+  match a, b with
+  | None, None => true
+  | Some x, Some y => list_eqb entry_eqb x y
+  | _, _ => false
+  end.
 Definition wobs_eqb (a b : wobs) : bool :=
-  list_eqb entry_eqb (o_log a) (o_log b) && kvmap_eqb (o_new a) (o_new b) &&
+  list_eqb entry_eqb (o_log a) (o_log b) && list_eqb olog_eqb (o_served a) (o_served b) &&
+  kvmap_eqb (o_new a) (o_new b) &&
   Bool.eqb (o_hashed_ok a) (o_hashed_ok b) && list_eqb att_eqb (o_attempts a) (o_attempts b).
